@@ -666,6 +666,10 @@ func init() {
 		return m.ufOver("h:"+constStr(args[0], "uf name"), smt.Str, variadic(args[1])...)
 	}
 
+	I["zzverif.UFU64"] = func(m *Machine, fn *ssa.Function, args []Value) Value {
+		return m.ufOver("h:"+constStr(args[0], "uf name"), smt.BV(64), variadic(args[1])...)
+	}
+
 	// ---- fmt / errors ----
 	I["fmt.Sprintf"] = func(m *Machine, fn *ssa.Function, args []Value) Value {
 		return m.sprintf(strArg(args[0]), variadic(args[1]))
